@@ -192,6 +192,14 @@ func Root() string {
 	return "/verif"
 }
 
+// BinDir returns the directory holding the harness binaries.
+func BinDir() string {
+	if b := os.Getenv("VERIF_BIN"); b != "" {
+		return b
+	}
+	return filepath.Join(Root(), "bin")
+}
+
 func masterSeed() int64 {
 	if s := os.Getenv("VERIF_SEED"); s != "" {
 		if n, err := strconv.ParseInt(s, 10, 64); err == nil {
@@ -378,6 +386,10 @@ func RunMain(id, tier string, args []string) int {
 	if replay != "" {
 		return replayMain(p, replay, scratch, tmp)
 	}
+	if len(only) > 0 && os.Getenv("VERIF_OUT") == "" {
+		// partial runs never overwrite the committed evidence / replays
+		os.Setenv("VERIF_OUT", filepath.Join(scratch, "out"))
+	}
 
 	n := p.Cases(tier)
 	var idxs []int
@@ -474,7 +486,7 @@ func runBatch(p *Property, tier string, master int64, b *batch, scratch, tmp str
 		attempt++
 		out := filepath.Join(scratch, fmt.Sprintf("batch-%d-%d.jsonl", b.n, attempt))
 		errf := filepath.Join(scratch, fmt.Sprintf("batch-%d-%d.stderr", b.n, attempt))
-		bin := filepath.Join(Root(), "bin", "vcheck")
+		bin := filepath.Join(BinDir(), "vcheck")
 		if b.race {
 			bin += "-race"
 		}
@@ -703,7 +715,11 @@ type replayDoc struct {
 func conclude(a *Agg, wall time.Duration) int {
 	p := a.Prop
 	findings := loadFindings()
-	replayDir := filepath.Join(Root(), "replays", p.ID)
+	outRoot := Root()
+	if o := os.Getenv("VERIF_OUT"); o != "" {
+		outRoot = o
+	}
+	replayDir := filepath.Join(outRoot, "replays", p.ID)
 	os.MkdirAll(replayDir, 0755)
 
 	evaluations := len(a.Results)
@@ -714,6 +730,7 @@ func conclude(a *Agg, wall time.Duration) int {
 	var inconclusiveNotes []string
 	nViol := 0
 	knownHit := map[string]int{}
+	knownFirst := map[string]string{}
 	var violLines []string
 	for _, r := range a.Results {
 		switch r.Verdict {
@@ -741,6 +758,9 @@ func conclude(a *Agg, wall time.Duration) int {
 			for _, v := range r.Violations {
 				if f := matchKnown(findings, p.ID, v.Sig); f != nil {
 					knownHit[f.What]++
+					if _, ok := knownFirst[f.What]; !ok {
+						knownFirst[f.What] = fmt.Sprintf("case %d: %s", r.Case, v.Detail)
+					}
 				} else {
 					unknown = append(unknown, v)
 				}
@@ -851,8 +871,8 @@ func conclude(a *Agg, wall time.Duration) int {
 		"violations":  nViol,
 	}
 	b, _ := json.MarshalIndent(ev, "", " ")
-	os.MkdirAll(filepath.Join(Root(), "evidence"), 0755)
-	ioutil.WriteFile(filepath.Join(Root(), "evidence", p.ID+".json"), b, 0644)
+	os.MkdirAll(filepath.Join(outRoot, "evidence"), 0755)
+	ioutil.WriteFile(filepath.Join(outRoot, "evidence", p.ID+".json"), b, 0644)
 
 	var known []string
 	for what := range knownHit {
@@ -861,6 +881,12 @@ func conclude(a *Agg, wall time.Duration) int {
 	sort.Strings(known)
 	for _, what := range known {
 		fmt.Printf("KNOWN-FINDING: property=%s %s (seen %d times)\n", p.ID, what, knownHit[what])
+		if d := knownFirst[what]; d != "" {
+			if len(d) > 500 {
+				d = d[:500] + "..."
+			}
+			fmt.Println("  first:", d)
+		}
 	}
 	for _, l := range violLines {
 		fmt.Println(l)
@@ -927,3 +953,13 @@ func replayMain(p *Property, file, scratch, tmp string) int {
 	_ = a
 	return code
 }
+
+// NewDebugCtx builds a context for ad-hoc debugging of a single case outside the scheduler.
+func NewDebugCtx(p *Property, tier string, idx int, dir string) *Ctx {
+	seed := CaseSeed(p.ID, masterSeed(), idx)
+	res := &CaseResult{Case: idx, Seed: seed, Verdict: Held, Obs: map[string]int64{}}
+	return &Ctx{Prop: p, Case: idx, Seed: seed, Tier: tier, Rand: rand.New(rand.NewSource(seed)), Dir: dir, res: res}
+}
+
+// DebugResult exposes the case result of a debug context.
+func (c *Ctx) DebugResult() *CaseResult { return c.res }
